@@ -113,6 +113,33 @@ pub fn canonical_cmp(a: &Labels, b: &Labels) -> Ordering {
     }
 }
 
+/// The canonical order without case folding (what a "case sensitive comparison" of two names in
+/// canonical order means): labels right to left, each as a left-justified octet string.
+pub fn canonical_cmp_case(a: &Labels, b: &Labels) -> Ordering {
+    let mut ia = a.iter().rev();
+    let mut ib = b.iter().rev();
+    loop {
+        match (ia.next(), ib.next()) {
+            (None, None) => return Ordering::Equal,
+            (None, Some(_)) => return Ordering::Less,
+            (Some(_), None) => return Ordering::Greater,
+            (Some(x), Some(y)) => match x.as_slice().cmp(y.as_slice()) {
+                Ordering::Equal => {}
+                o => return o,
+            },
+        }
+    }
+}
+
+/// `zone` is an ancestor-or-self of `name`: all labels of `zone` are the rightmost labels of
+/// `name` (RFC 1034 3.1 subdomain relation), compared with or without ASCII case folding.
+pub fn is_suffix(zone: &Labels, name: &Labels, fold_case: bool) -> bool {
+    if zone.len() > name.len() {
+        return false;
+    }
+    zone.iter().rev().zip(name.iter().rev()).all(|(z, n)| if fold_case { label_eq_fold(z, n) } else { z == n })
+}
+
 /// Length of the uncompressed wire form (RFC 1035 3.1), including the terminating root octet.
 pub fn wire_len(labels: &Labels) -> usize {
     labels.iter().map(|l| l.len() + 1).sum::<usize>() + 1
